@@ -109,6 +109,9 @@ def load_seeded():
         if os.path.exists(meta) and os.path.exists(patch):
             m = json.load(open(meta))
             benign = m.get("kind") == "benign"
+            if benign and not m.get("check_props"):
+                from .propspec import PROPERTIES
+                m["check_props"] = sorted(PROPERTIES)      # a harmless edit must leave EVERY check silent
             out.append(dict(id="seeded/" + name, props=m.get("check_props") or [m["property"]], patch=patch,
                             expect=None if benign else (m.get("expect_rules") or ["*"]), seeded=True, kind=m.get("kind", "breaks property"),
                             note=m.get("summary", "")))
